@@ -260,6 +260,8 @@ func contract_AppendTag(b []byte, num Number, typ Type) (r []byte) {
 	modifiesTail(b)
 	ensures(freshSlice(r) || sameArray(r, b)) // extended in place, or reallocated
 	ensures(len(r) == len(b)+specVlen(uint64(num)<<3|uint64(typ&7)))
+	// the wire type occupies the low three bits and never changes the tag's length (SizeTag)
+	ensures(len(r) == len(b)+specVlen(uint64(num)<<3))
 	ensures(forallIn(r, 0, len(b), func(i int, e byte) bool { return e == old(b[i]) }))
 	ensures(specVarintAt(r, len(b), uint64(num)<<3|uint64(typ&7)))
 	return
